@@ -12,6 +12,9 @@ Decided (the pairing beliefs revert relies on; structural):
         current_facts; nothing else writes fact_log or current_facts except revert.
  R6 K2  revert's early Ok is guarded by `index == fact_log.len()`; every other Ok exit truncates the
         log, clears the map and replays the log; checkpoint() is fact_log.len().
+ R7 K5  the replay is the live write: the overlay mutators revert applies per log entry are the ones insert /
+        delete apply (entry / or_default / insert - a logged delete is re-inserted as a tombstone, never
+        removed: the tombstone is what hides a fact of the graph), and every log entry reaches the insert.
 Not decided: map equality after arbitrary interleavings (value-level)."""
 from rules.core import pat
 from rules.core.facts import Operand, Place
@@ -130,6 +133,24 @@ def run(F, rep, tier):
         and all(srv.dominates(t.bb, i.bb) for t in trunc for i in it)
     rep.check(ok, "SessionPerspective::revert|rebuild", "K1 must-pass-through",
               "the rebuilding exit truncates fact_log, clears the map, replays the (truncated) log and installs the rebuilt map", site=srv.site())
+    MUT = {"insert", "remove", "remove_entry", "entry", "or_default", "or_insert", "or_insert_with", "and_modify", "retain", "pop_first", "pop_last",
+           "append", "extend", "split_off", "get_mut", "values_mut", "iter_mut", "first_entry", "last_entry"}
+
+    def muts(f):
+        return {c.name for c in f.calls if c.name in MUT and c.path and ("btree" in c.path.lower() or "BTreeMap" in c.path)}
+    live = set()
+    for name in ("insert", "delete"):
+        live |= muts(impl_fn(F, "storage::QueryMut", SP, name))
+    rm = muts(srv)
+    nx = [c for c in srv.calls if c.is_("Iterator::next")]
+    ok = "insert" in live and "insert" in rm and rm <= live and len(nx) == 1
+    if ok:
+        e = srv.outcome_edges(nx[0]).get("Some")
+        ok = e is not None and pat.must_pass(srv, e[1], [c.bb for c in replay], exits=[nx[0].bb] + list(srv.returns()))
+    rep.check(ok, "SessionPerspective::revert|replay-is-the-live-write", "K5 sibling agreement",
+              "revert replays every log entry with the overlay mutators of insert/delete (%s); no entry skips the insert" % sorted(rm),
+              "SessionPerspective::revert does not replay the log the way insert/delete wrote it (mutators %s vs live %s, or an entry bypasses the insert): a logged delete must come "
+              "back as a tombstone - removing the key instead un-hides the fact of the graph that an accepted command deleted" % (sorted(rm), sorted(live)), srv.site())
     scp = impl_fn(F, "storage::Revertable", SP, "checkpoint")
     rep.check(any(c.name == "len" and scp.derives_from_field(c.args[0], "fact_log") for c in scp.calls), "SessionPerspective::checkpoint|fact_log.len", "K6 provenance",
               "checkpoint().index is fact_log.len()", site=scp.site())
